@@ -23,8 +23,21 @@ PROFILE = netgen.profile(dcline=True, oos=0.06, open_prob=0.25,
                                     "motor": 1, "asymmetric_load": 1, "asymmetric_sgen": 1})
 
 
+QLIM_PROFILE = netgen.profile(dcline=False, oos=0.03, open_prob=0.15, second_slack=3, noslack_island=False,
+                              gen_qlim_range=(0.002, 0.08),
+                              bus_kinds={"load": 5, "sgen": 2, "gen": 6, "storage": 1, "shunt": 2, "ward": 1, "xward": 0, "motor": 0,
+                                         "asymmetric_load": 0, "asymmetric_sgen": 0})
+
+
 @st.composite
 def _case(draw, tier):
+    qlim = draw(st.integers(0, 4)) == 0
+    if qlim:
+        # many generators with narrow reactive limits: limits that become binding one after the other
+        recipe = draw(netgen.grid(QLIM_PROFILE))
+        return {"recipe": recipe, "opt": {"mode": "ac", "voltage_depend_loads": draw(st.booleans()), "trafo_model": "t",
+                                          "calculate_voltage_angles": True, "numba": draw(st.booleans()), "enforce_q_lims": True,
+                                          "lightsim2grid": False}}
     recipe = draw(netgen.grid(PROFILE))
     if draw(st.integers(0, 4)) == 0:
         opt = {"mode": "dc"}
@@ -155,4 +168,6 @@ def check(case):
     if vm.isna().any():
         res.label("unsupplied-bus")
     res.label("levels:%d" % net.bus.vn_kv.nunique())
+    if opt.get("enforce_q_lims") and len(net.gen) >= 2:
+        res.label("enforce_q_lims+>=2gens")
     return res
